@@ -90,6 +90,8 @@ type world struct {
 	ncall int
 	chans []*chanInfo
 	ctx   context.Context
+	syncCh  <-chan *broker.Message // driver-private barrier subscription (redis, sequential replay)
+	syncSeq int
 	// closing: Close has been called (the server-side subscription state is no longer waited for)
 	closing atomic.Bool
 }
@@ -421,6 +423,41 @@ func (w *world) waitLens(lens []int, cmap map[int]int) bool {
 	})
 }
 
+// barrier (redis): a marker published on a driver-private topic has come out of the receive loop, so
+// everything published before it has been dispatched. The private subscription is made on first use
+// and is not part of the trace.
+func (w *world) barrier() {
+	const syncTopic = "x01.sync"
+	if w.syncCh == nil {
+		var ch <-chan *broker.Message
+		if guarded(func() string {
+			var err error
+			ch, err = w.b.Subscribe(w.ctx, syncTopic)
+			return classify(err)
+		}) != "ok" {
+			return
+		}
+		w.syncCh = ch
+		waitFor(flowWait, func() bool { return w.serverSubscribed(syncTopic) })
+	}
+	w.syncSeq++
+	mark := fmt.Sprintf("sync:%d", w.syncSeq)
+	if guarded(func() string { return classify(w.b.Publish(w.ctx, syncTopic, []byte(mark))) }) != "ok" {
+		return
+	}
+	deadline := time.After(flowWait)
+	for {
+		select {
+		case m, ok := <-w.syncCh:
+			if !ok || (m != nil && string(m.Payload) == mark) {
+				return
+			}
+		case <-deadline:
+			return
+		}
+	}
+}
+
 // ---- sequential replay (quiescent after every call) ---------------------------------------------
 
 func runSeq(b *behT) *fw.Trace {
@@ -431,7 +468,9 @@ func runSeq(b *behT) *fw.Trace {
 	}
 	defer w.cleanup()
 	w.log(cfgEvent(b))
-	cmap := map[int]int{} // model channel -> real channel
+	cmap := map[int]int{}      // model channel -> real channel
+	ctopic := map[int]string{} // model channel -> topic
+	var prev stepT
 	status, note := fw.Realised, ""
 	diverge := func(s stepT, why string) {
 		status, note = fw.Diverged, fmt.Sprintf("step %s: %s", s.A, why)
@@ -448,11 +487,23 @@ loop:
 			}
 			if res == "ok" {
 				cmap[s.C] = c
+				ctopic[s.C] = s.T
 			}
 		case "Unsub":
 			w.unsubscribe(s.T)
 		case "Pub":
 			w.publish(s.T)
+			if w.mr != nil && s.Res == "ok" {
+				// redis delivers asynchronously. Where the model says the message was skipped because the
+				// channel was full nothing observable tells when the receive loop is done with it: wait for a
+				// marker on a private topic to come through the same connection (first in, first out).
+				for mc, t := range ctopic {
+					if t == s.T && mc <= len(s.Sts) && s.Sts[mc-1] == "open" && len(prev.Lens) >= mc && prev.Lens[mc-1] == s.Lens[mc-1] {
+						w.barrier()
+						break
+					}
+				}
+			}
 		case "Close":
 			w.closeBroker()
 		case "Ping":
@@ -471,6 +522,7 @@ loop:
 			w.waitLens(s.Lens, cmap)
 		}
 		w.probe()
+		prev = s
 	}
 	w.drain()
 	return &fw.Trace{Status: status, Note: note, Events: w.evs}
